@@ -8,7 +8,7 @@
 From Coq Require Import Lia String.
 From YV Require Import PyBase PyBaseProofs ShellMap Token Utils Scanner Rpal PState
                        Parser Expand Math Exec TokOk ScanOk ScanPlain RpalProofs
-                       ExecPlain ExpandSites ExecUnk.
+                       ExecPlain ExpandSites SpecialsProofs ExecUnk.
 Open Scope Z_scope.
 
 Section ExecArgs.
@@ -16,6 +16,7 @@ Section ExecArgs.
   Variable rd : str -> option str.
   Hypothesis Htab : plain_tables_ok T = true.
   Hypothesis Hsp : forall c, sp_is_space (t_scan T) c = t_is_space T c.
+  Hypothesis Hblank : sp_is_space (t_scan T) 32 = true /\ okc T 32 = true.
   Notation isp := (t_is_space T).
   Notation ucls := (ucls T).
 
@@ -37,6 +38,26 @@ Section ExecArgs.
                 m_repl mac = RToks body /\ m_extract mac = [] /\
                 Forall (gtok T) body.
 
+  (* the line break \\ without an option behind it *)
+  Definition s_bsbs : str := s2l "\\".
+  Definition nlb (t : tok) : Prop := tk t = KSpecial /\ txt t = s_bsbs.
+  (* the next token that is no white space stands in l and is no [ *)
+  Definition nobr (l : list tok) : Prop :=
+    (exists x r, skip_space l = x :: r /\ txt_is x s_lbrack = false) /\
+    match l with t0 :: _ => txt_is t0 s_lbrack = false | [] => True end.
+  Lemma skip_space_app_some l b x r :
+    skip_space l = x :: r -> skip_space (l ++ b) = x :: r ++ b.
+  Proof.
+    induction l as [|t l IH]; [discriminate|]. cbn [app skip_space].
+    destruct (buf_is_space t); [exact IH|]. intros H. inversion H; subst. reflexivity.
+  Qed.
+  Lemma nobr_app l b : nobr l -> nobr (l ++ b).
+  Proof.
+    intros [(x & r & E & Hx) H0]. split.
+    - exists x, (r ++ b). split; [apply skip_space_app_some; exact E | exact Hx].
+    - destruct l as [|t0 l']; [discriminate E | exact H0].
+  Qed.
+
   (* balanced with respect to braces *)
   Inductive bal : list tok -> Prop :=
     | bal_nil : bal []
@@ -51,7 +72,8 @@ Section ExecArgs.
                          arg_collect (a ++ c :: l) s_rbrace 1 [] = Some (a, l) ->
                          bcl ms a -> bcl ms l ->
                          bcl ms (m :: o :: a ++ c :: l)
-    | b_const m body l : constm ms m body -> bcl ms l -> bcl ms (m :: l).
+    | b_const m body l : constm ms m body -> bcl ms l -> bcl ms (m :: l)
+    | b_newline t l : nlb t -> nobr l -> bcl ms l -> bcl ms (t :: l).
 
   Lemma lb_txt o : lb o -> txt_is o s_lbrace = true /\ txt_is o s_rbrace = false.
   Proof. intros [_ E]. unfold txt_is. rewrite E. split; reflexivity. Qed.
@@ -180,9 +202,10 @@ Section ExecArgs.
      tabulated text at the position of the sequence, everything else as it is *)
   Definition rend (ms : list (str * macro)) (t : tok) : list tok :=
     match tk t with
-    | KSpecial => match assoc (txt t) (t_special_values T) with
-                  | Some v => if inert_txt t then [mk KText (pos t) v (pfix t)] else [t]
-                  | None => [t] end
+    | KSpecial => if str_eqb (txt t) s_bsbs then [SpaceT (pos t) s_space]
+                  else match assoc (txt t) (t_special_values T) with
+                       | Some v => if inert_txt t then [mk KText (pos t) v (pfix t)] else [t]
+                       | None => [t] end
     | KMacro => match assoc (txt t) ms with
                 | Some mac =>
                     match m_args mac, m_repl mac with
@@ -190,6 +213,7 @@ Section ExecArgs.
                     | _, _ => [t]
                     end
                 | None => [t] end
+    | KVerb false => [mk KText (pos t) (txt t) (pfix t)]
     | _ => [t]
     end.
   Definition rtoks (ms : list (str * macro)) (l : list tok) : list tok :=
@@ -198,7 +222,8 @@ Section ExecArgs.
   Proof. apply flat_map_app. Qed.
   (* the text a special sequence is replaced by *)
   Definition sp_tok (t : tok) : Prop :=
-    tk t = KText /\ exists k, assoc k (t_special_values T) = Some (txt t).
+    tk t = KText /\ ((exists k, assoc k (t_special_values T) = Some (txt t)) \/
+                    has_nl (txt t) = false).
 
   (* the tokens of visible text *)
   Definition tx (t : tok) : bool := match tk t with KText => true | _ => false end.
@@ -226,7 +251,8 @@ Section ExecArgs.
 
   Lemma bcl_app ms a b : bcl ms a -> bcl ms b -> bcl ms (a ++ b).
   Proof.
-    induction 1 as [|t l Ht Hl IH|m o a0 c l Hm Ho Hc Hb Ha IHa Hl IHl|m body l Hm Hl IH];
+    induction 1 as [|t l Ht Hl IH|m o a0 c l Hm Ho Hc Hb Ha IHa Hl IHl|m body l Hm Hl IH
+                    |t l Ht Hn Hl IH];
       intros Hb'.
     - exact Hb'.
     - cbn [app]. constructor; [exact Ht | apply IH; exact Hb'].
@@ -235,13 +261,14 @@ Section ExecArgs.
       pose proof (arg_collect_more _ _ _ _ _ _ b Hb) as Hm'.
       rewrite <- app_assoc in Hm'. exact Hm'.
     - cbn [app]. eapply b_const; [exact Hm | apply IH; exact Hb'].
+    - cbn [app]. apply b_newline; [exact Ht | apply nobr_app; exact Hn | apply IH; exact Hb'].
   Qed.
 
   Lemma skip_space_bcl ms l : bcl ms l ->
     exists pre, l = pre ++ skip_ctl l /\ Forall (ucls ms) pre /\
                 Forall (fun t => buf_is_space t = true) pre /\ bcl ms (skip_ctl l).
   Proof.
-    induction 1 as [|t l Ht Hl IH|m o a c l Hm Ho Hc Hb Ha _ Hl _|m body l Hm Hl _].
+    induction 1 as [|t l Ht Hl IH|m o a c l Hm Ho Hc Hb Ha _ Hl _|m body l Hm Hl _|t l Ht Hn Hl _].
     - exists []. repeat split; constructor.
     - cbn [skip_ctl]. destruct (buf_is_space t && negb (is_lang t)) eqn:E.
       + apply andb_true_iff in E. destruct E as [E _].
@@ -258,11 +285,34 @@ Section ExecArgs.
       { destruct Hm as (Hk & _). unfold buf_is_space. rewrite Hk. reflexivity. }
       cbn [skip_ctl]. rewrite E. cbn [andb]. exists []. split; [reflexivity|].
       split; [constructor|]. split; [constructor|]. eapply b_const; eassumption.
+    - assert (E : buf_is_space t = false).
+      { destruct Ht as (Hk & _). unfold buf_is_space. rewrite Hk. reflexivity. }
+      cbn [skip_ctl]. rewrite E. cbn [andb]. exists []. split; [reflexivity|].
+      split; [constructor|]. split; [constructor|]. apply b_newline; assumption.
   Qed.
 
   Lemma unames_ucls_unknown ms t :
     tk t = KMacro -> assoc (txt t) ms = None -> unames ms [t] = [txt t].
   Proof. intros Hk Hm. unfold unames. cbn [flat_map]. rewrite Hk, Hm. reflexivity. Qed.
+
+  Lemma brace_not_bsbs t : (txt t = s_lbrace \/ txt t = s_rbrace) -> str_eqb (txt t) s_bsbs = false.
+  Proof. intros [E|E]; rewrite E; reflexivity. Qed.
+  Lemma inert_not_bsbs t : inert_txt t = true -> str_eqb (txt t) s_bsbs = false.
+  Proof.
+    intros H. destruct (inert_rewrite t H) as (_ & _ & _ & _ & H5 & _). exact H5.
+  Qed.
+
+  (* one turn of the loop at a line break without option *)
+  Lemma step_newline rec fuel st t l env_stop rout :
+    nlb t -> nobr l ->
+    step_seq T rd rec fuel st (t :: l) env_stop rout =
+    rec (TSeq l env_stop (SpaceT (pos t) s_space :: ActionT (pos t) :: rout)) st.
+  Proof.
+    intros [Hk Ht] [(x & r & Es & Hx) H0].
+    rewrite (step_seq_newline T rd rec fuel st t l env_stop rout Hk Ht).
+    unfold parse_newline_option, look_ahead. rewrite Es. cbn [hd_error]. rewrite Hx.
+    destruct l as [|t0 l']; [discriminate Es|]. rewrite H0. reflexivity.
+  Qed.
 
   (* the main loop over a token list of the class *)
   Theorem exec_args : forall fuel toks rout st r,
@@ -278,7 +328,7 @@ Section ExecArgs.
       Forall (fun t => etok T t \/ (pk t = false /\ txt t = []) \/ sp_tok t \/ (pfix t = true /\ gtok T t)) ts.
   Proof.
     induction fuel as [|k IH]; intros toks rout st r Hc H; [discriminate|].
-    cbn [exec step] in H. inversion Hc as [E0|t b Ht Hb E0|m o a c l Hm Ho Hcl Hbal Ha Hl E0|m body l Hm Hl E0]; subst.
+    cbn [exec step] in H. inversion Hc as [E0|t b Ht Hb E0|m o a c l Hm Ho Hcl Hbal Ha Hl E0|m body l Hm Hl E0|t l Ht Hn Hl E0]; subst.
     - cbn [step_seq] in H.
       destruct (remove_pure_action_lines isp (rev rout)) as [o| | |] eqn:Er; try discriminate.
       cbn [rbind] in H. inversion H; subst. exists st, [], o.
@@ -313,15 +363,16 @@ Section ExecArgs.
         split; [exact Eu|]. split; [exact Em|].
         rewrite !plains_app, !texts_app, !nst_app, P1, P2, En, Et.
         split; [reflexivity|]. split; [reflexivity|]. apply Forall_app. split; assumption. }
-      assert (Rother : tk t <> KSpecial -> tk t <> KMacro -> rtoks (macros st) [t] = [t]).
-      { intros Hn Hn2. unfold rtoks, rend. cbn [flat_map]. rewrite app_nil_r.
-        destruct (tk t); try reflexivity; contradiction. }
-      inversion Ht as [? He|? Hk Hd Hm|? Hk Hi|? Hk Htx|? Hk Hbr|? v Hk Hi Hv|? Hpin Hg]; subst.
+      assert (Rother : tk t <> KSpecial -> tk t <> KMacro /\ tk t <> KVerb false -> rtoks (macros st) [t] = [t]).
+      { intros Hn [Hn2 Hn3]. unfold rtoks, rend. cbn [flat_map]. rewrite app_nil_r.
+        destruct (tk t); try reflexivity; try contradiction.
+        match goal with e : bool |- _ => destruct e end; [reflexivity | congruence]. }
+      inversion Ht as [? He|? Hk Hd Hm|? Hk Hi|? Hk Htx|? Hk Hbr|? v Hk Hi Hv|? Hpin Hg|? Hk Hnl]; subst.
       + (* plain token *)
         rewrite (step_seq_etok T rd Htab) in H by exact He.
         destruct (IH _ _ _ _ Hb H) as (st' & ts & out & Er & Ep & Eu & Em & En & Et & Ef).
-        assert (Hns : tk t <> KSpecial /\ tk t <> KMacro)
-          by (destruct He as [_ Hkind]; destruct (tk t); try contradiction; split; discriminate).
+        assert (Hns : tk t <> KSpecial /\ tk t <> KMacro /\ tk t <> KVerb false)
+          by (destruct He as [_ Hkind]; destruct (tk t); try contradiction; repeat split; discriminate).
         apply (Hone [t] [] st eq_refl).
         * exists st', ts, out. repeat split; try assumption; [symmetry; exact Er|].
           cbn [rev] in Ep. rewrite <- app_assoc in Ep. exact Ep.
@@ -380,7 +431,7 @@ Section ExecArgs.
       + (* comment *)
         rewrite (step_comment T rd) in H by assumption.
         destruct (IH _ _ _ _ Hb H) as (st' & ts & out & Er & Ep & Eu & Em & En & Et & Ef).
-        assert (Hns : tk t <> KSpecial /\ tk t <> KMacro) by (rewrite Hk; split; discriminate).
+        assert (Hns : tk t <> KSpecial /\ tk t <> KMacro /\ tk t <> KVerb false) by (rewrite Hk; repeat split; discriminate).
         apply (Hone [] [] st eq_refl).
         * exists st', ts, out. repeat split; try assumption. symmetry; exact Er.
         * reflexivity.
@@ -391,8 +442,8 @@ Section ExecArgs.
       + (* action or void token *)
         rewrite (step_action T rd Htab) in H by assumption.
         destruct (IH _ _ _ _ Hb H) as (st' & ts & out & Er & Ep & Eu & Em & En & Et & Ef).
-        assert (Hns : tk t <> KSpecial /\ tk t <> KMacro)
-          by (destruct Hk as [Hk|Hk]; rewrite Hk; split; discriminate).
+        assert (Hns : tk t <> KSpecial /\ tk t <> KMacro /\ tk t <> KVerb false)
+          by (destruct Hk as [Hk|Hk]; rewrite Hk; repeat split; discriminate).
         assert (P2 : pk t = false)
           by (unfold ExecUnk.pk; destruct Hk as [Hk|Hk]; rewrite Hk; reflexivity).
         apply (Hone [t] [] st eq_refl).
@@ -407,7 +458,7 @@ Section ExecArgs.
         rewrite (step_brace T rd) in H by assumption.
         destruct (IH _ _ _ _ Hb H) as (st' & ts & out & Er & Ep & Eu & Em & En & Et & Ef).
         assert (Rb : rtoks (macros st) [t] = [t]).
-        { unfold rtoks, rend. cbn [flat_map]. rewrite Hk.
+        { unfold rtoks, rend. cbn [flat_map]. rewrite Hk, (brace_not_bsbs t Hbr).
           assert (Hin : inert_txt t = false).
           { unfold inert_txt, loop_strings, txt_is. destruct Hbr as [E|E]; rewrite E; reflexivity. }
           rewrite Hin. destruct (assoc (txt t) (t_special_values T)); reflexivity. }
@@ -423,7 +474,7 @@ Section ExecArgs.
         rewrite (step_special T rd _ _ _ _ _ _ _ v Hk Hi Hv) in H.
         destruct (IH _ _ _ _ Hb H) as (st' & ts & out & Er & Ep & Eu & Em & En & Et & Ef).
         assert (Rs : rtoks (macros st) [t] = [mk KText (pos t) v (pfix t)]).
-        { unfold rtoks, rend. cbn [flat_map]. rewrite Hk, Hv, Hi. reflexivity. }
+        { unfold rtoks, rend. cbn [flat_map]. rewrite Hk, (inert_not_bsbs t Hi), Hv, Hi. reflexivity. }
         apply (Hone [ActionT (pos t); mk KText (pos t) v (pfix t)] [] st eq_refl).
         * exists st', ts, out. repeat split; try assumption; [symmetry; exact Er|].
           cbn [rev] in Ep. rewrite <- !app_assoc in Ep. exact Ep.
@@ -433,13 +484,13 @@ Section ExecArgs.
         * rewrite Rs. reflexivity.
         * constructor; [right; left; split; reflexivity|].
           constructor; [|constructor]. right. right. left. split; [reflexivity|].
-          exists (txt t). exact Hv.
+          left. exists (txt t). exact Hv.
       + (* generated text: pinned, otherwise like a plain token *)
         rewrite (step_seq_gtok T rd Htab) in H by exact Hg.
         destruct (IH _ _ _ _ Hb H) as (st' & ts & out & Er & Ep & Eu & Em & En & Et & Ef).
-        assert (Hns : tk t <> KSpecial /\ tk t <> KMacro).
+        assert (Hns : tk t <> KSpecial /\ tk t <> KMacro /\ tk t <> KVerb false).
         { destruct Hg as [_ Hkind]. cbn [tk txt pos pfix mk] in Hkind.
-          destruct (tk t); try contradiction; split; discriminate. }
+          destruct (tk t); try contradiction; repeat split; discriminate. }
         apply (Hone [t] [] st eq_refl).
         * exists st', ts, out. repeat split; try assumption; [symmetry; exact Er|].
           cbn [rev] in Ep. rewrite <- app_assoc in Ep. exact Ep.
@@ -449,6 +500,21 @@ Section ExecArgs.
         * rewrite (Rother (proj1 Hns) (proj2 Hns)). reflexivity.
         * rewrite (Rother (proj1 Hns) (proj2 Hns)). reflexivity.
         * constructor; [right; right; right; split; assumption | constructor].
+      + (* \verb material: a text token at the position of the material *)
+        rewrite (step_verb T rd) in H by exact Hk.
+        destruct (IH _ _ _ _ Hb H) as (st' & ts & out & Er & Ep & Eu & Em & En & Et & Ef).
+        assert (Rs : rtoks (macros st) [t] = [mk KText (pos t) (txt t) (pfix t)]).
+        { unfold rtoks, rend. cbn [flat_map]. rewrite Hk. reflexivity. }
+        apply (Hone [ActionT (pos t); mk KText (pos t) (txt t) (pfix t)] [] st eq_refl).
+        * exists st', ts, out. repeat split; try assumption; [symmetry; exact Er|].
+          cbn [rev] in Ep. rewrite <- !app_assoc in Ep. exact Ep.
+        * reflexivity.
+        * unfold unames. cbn [flat_map]. rewrite Hk. reflexivity.
+        * rewrite Rs. reflexivity.
+        * rewrite Rs. reflexivity.
+        * constructor; [right; left; split; reflexivity|].
+          constructor; [|constructor]. right. right. left. split; [reflexivity|].
+          right. exact Hnl.
     - (* a pass-through macro with its braced argument *)
       destruct (step_pass (exec T rd k) k st m o a c l None rout Hm Ho Hcl Hbal)
         as (a' & x & y & Ea' & Hx & Hy & Es).
@@ -474,6 +540,7 @@ Section ExecArgs.
       destruct Ua' as (Ua' & Pa' & Ta').
       assert (Ro : rtoks (macros st) [m; o] = [m; o] /\ rtoks (macros st) [c] = [c]).
       { unfold rtoks, rend. cbn [flat_map]. rewrite Hk, Ok_, Ck, Hma, Hargs.
+        rewrite (brace_not_bsbs o (or_introl Ot)), (brace_not_bsbs c (or_intror Ct)).
         assert (I1 : inert_txt o = false)
           by (unfold inert_txt, loop_strings; cbn [forallb]; rewrite O1; cbn;
               repeat rewrite Bool.andb_false_r; reflexivity).
@@ -577,6 +644,32 @@ Section ExecArgs.
         rewrite Eb at 2. rewrite rtoks_app, Hr0, !texts_app, Htx0.
         assert (X1 : texts (rtoks (macros st) [ActionT (pos m)]) = []) by reflexivity.
         rewrite X1. reflexivity.
+    - (* the line break: one blank at its position *)
+      rewrite (step_newline (exec T rd k) k st t l None rout Ht Hn) in H.
+      destruct (IH _ _ _ _ Hl H) as (st' & ts & out & Er & Ep & Eu & Em & En & Et & Ef).
+      destruct Ht as [Hk Htx].
+      assert (Rn : rtoks (macros st) [t] = [SpaceT (pos t) s_space]).
+      { unfold rtoks, rend. cbn [flat_map]. rewrite Hk, Htx. reflexivity. }
+      assert (Hsp_tok : etok T (SpaceT (pos t) s_space)).
+      { split; [reflexivity|]. cbn [tk SpaceT mk txt]. exists 32%N, [].
+        destruct Hblank as [Hb _]. split; [reflexivity|]. split; [exact Hb|].
+        cbn [forallb s_space]. unfold s_space, c_space. rewrite Hb. reflexivity. }
+      exists st', (ActionT (pos t) :: SpaceT (pos t) s_space :: ts), out.
+      split; [exact Er|].
+      split; [cbn [rev] in Ep; rewrite <- !app_assoc in Ep; exact Ep|].
+      change (t :: l) with ([t] ++ l). rewrite unames_app, rtoks_app, Rn.
+      assert (U0 : unames (macros st) [t] = [])
+        by (unfold unames; cbn [flat_map]; rewrite Hk; reflexivity).
+      rewrite U0. split; [exact Eu|]. split; [exact Em|].
+      split; [|split].
+      + change (ActionT (pos t) :: SpaceT (pos t) s_space :: ts)
+          with ([ActionT (pos t); SpaceT (pos t) s_space] ++ ts).
+        rewrite !plains_app, !nst_app, En. reflexivity.
+      + change (ActionT (pos t) :: SpaceT (pos t) s_space :: ts)
+          with ([ActionT (pos t); SpaceT (pos t) s_space] ++ ts).
+        rewrite !texts_app, Et. reflexivity.
+      + constructor; [right; left; split; reflexivity|].
+        constructor; [left; exact Hsp_tok | exact Ef].
   Qed.
 
   (* ---- totality on the class (C07): the loop terminates and returns ---- *)
@@ -612,12 +705,12 @@ Section ExecArgs.
     exists r, exec T rd fuel (TSeq toks None rout) st = Ok r.
   Proof.
     induction fuel as [|k IH]; intros toks rout st Hc Hf; [lia|].
-    cbn [exec step]. inversion Hc as [E0|t b Ht Hb E0|m o a c l Hm Ho Hcl Hbal Ha Hl E0|m body l Hm Hl E0]; subst.
+    cbn [exec step]. inversion Hc as [E0|t b Ht Hb E0|m o a c l Hm Ho Hcl Hbal Ha Hl E0|m body l Hm Hl E0|t l Ht Hn Hl E0]; subst.
     - cbn [step_seq]. destruct (rpal_total isp (rev rout)) as [o E]. rewrite E. cbn [rbind].
       eexists. reflexivity.
     - cbn [mu fold_right] in Hf. fold (mu (macros st) b) in Hf.
       pose proof (wt_pos (macros st) t) as Hw.
-      inversion Ht as [? He|? Hk Hd Hm|? Hk Hi|? Hk Htx|? Hk Hbr|? v Hk Hi Hv|? Hpin Hg]; subst.
+      inversion Ht as [? He|? Hk Hd Hm|? Hk Hi|? Hk Htx|? Hk Hbr|? v Hk Hi Hv|? Hpin Hg|? Hk Hnl]; subst.
       + rewrite (step_seq_etok T rd Htab) by exact He. apply IH; [exact Hb | lia].
       + destruct (step_macro T rd (exec T rd k) k st t b None rout Hk Hd Hm)
           as (st1 & Es & _ & Em1).
@@ -634,6 +727,7 @@ Section ExecArgs.
       + rewrite (step_brace T rd) by assumption. apply IH; [exact Hb | lia].
       + rewrite (step_special T rd _ _ _ _ _ _ _ v Hk Hi Hv). apply IH; [exact Hb | lia].
       + rewrite (step_seq_gtok T rd Htab) by exact Hg. apply IH; [exact Hb | lia].
+      + rewrite (step_verb T rd) by exact Hk. apply IH; [exact Hb | lia].
     - destruct (step_pass (exec T rd k) k st m o a c l None rout Hm Ho Hcl Hbal)
         as (a' & x & y & Ea' & Hx & Hy & Es).
       rewrite Es.
@@ -687,6 +781,9 @@ Section ExecArgs.
           cbn [tk set_pos_fix]. destruct (tk b0); try contradiction; discriminate. }
         assert (W1 : wt (macros st) (ActionT (pos m)) = 1%nat) by reflexivity.
         lia.
+    - rewrite (step_newline (exec T rd k) k st t l None rout Ht Hn).
+      apply IH; [exact Hl|]. cbn [mu fold_right] in Hf. fold (mu (macros st) l) in Hf.
+      pose proof (wt_pos (macros st) t). lia.
   Qed.
 
   (* the words stay -- also those inside arguments --, the markup vanishes,
@@ -771,12 +868,13 @@ Section ExecArgs.
             apply Hall, Ha. }
           rewrite Hb. rewrite Bool.andb_false_r.
           split; [split; [intros _; reflexivity | intros [X|X]; discriminate] | reflexivity]. }
-      intros t [He|[(A & B)|[[A (key & Hv)]|[_ Hg]]]];
+      intros t [He|[(A & B)|[[A Hsrc]|[_ Hg]]]];
         [apply Hg0, etok_gtok; exact He | | | apply Hg0; exact Hg].
       - split; [split; [rewrite B; discriminate | intros _; exact B]|].
         intros _. apply (solid_nil isp t B).
       - assert (Hn : has_nl (txt t) = false).
-        { unfold values_one_line in Hval. rewrite forallb_forall in Hval.
+        { destruct Hsrc as [(key & Hv)|Hn']; [|exact Hn'].
+          unfold values_one_line in Hval. rewrite forallb_forall in Hval.
           assert (Hin : In (key, txt t) (t_special_values T)).
           { clear - Hv. induction (t_special_values T) as [|[k' v'] l IHl]; [discriminate|].
             simpl in Hv. destruct (str_eqb key k') eqn:E.
